@@ -113,7 +113,8 @@ Qed.
 Lemma ucsend_parts_eval rp m r :
   map (ucsend_part rp m r) ucsend_parts
   = [member tbl_ConnectionManagerServices "unconnected_send"; Ok rp; Ok PRIORITY; Ok TIMEOUT_TICKS;
-     UINT_encode (len m); Ok m; Ok (if Z.odd (len m) then [0] else []); Ok r].
+     UINT_encode (len m); Ok m; Ok (if Z.odd (len m) then [0] else []);
+     Ok (match r with [] => ucsend_empty_route | _ => r end)].
 Proof. reflexivity. Qed.
 
 Lemma ucsend_service_v : member tbl_ConnectionManagerServices "unconnected_send" = Ok [82]. Proof. reflexivity. Qed.
@@ -133,18 +134,16 @@ Proof.
   cbn [app]. rewrite app_nil_r. reflexivity.
 Qed.
 
-(* an Unconnected Send WITHOUT a route: nothing follows the (padded) embedded message *)
+(* an Unconnected Send WITHOUT a route carries an EMPTY route path: size 0, reserved 0 *)
 Lemma wrap_unconnected_send_noroute emb :
   blen emb < 65536 ->
   wrap_unconnected_send emb []
-  = Ok (82 :: 2 :: [32; 6; 36; 1] ++ 10 :: 5 :: le_enc 2 (blen emb) ++ emb ++ (if Z.odd (blen emb) then [0] else [])).
+  = Ok (82 :: (blen [32; 6; 36; 1] / 2) :: [32; 6; 36; 1] ++ mk_ucsend 10 5 emb []).
 Proof.
   intros Hl. unfold wrap_unconnected_send. rewrite ucsend_path_v. cbn [bind].
   rewrite ucsend_parts_eval, ucsend_service_v. change (len emb) with (blen emb).
   pose proof (blen_nonneg emb). rewrite uint16_ok by lia.
-  cbn [concat_res bind]. f_equal.
-  change PRIORITY with [10]. change TIMEOUT_TICKS with [5].
-  cbn [app]. rewrite !app_nil_r. reflexivity.
+  cbn [concat_res bind]. reflexivity.
 Qed.
 
 Lemma takez_exact a b n : n = blen a -> takez n (a ++ b) = Some (a, b).
@@ -179,15 +178,4 @@ Proof.
     replace (blen rb <? 2 * (blen rb / 2)) with false by lia.
     replace (2 * (blen rb / 2) <? blen rb) with false by (apply Z.even_spec in He; destruct He as [k Hk]; lia).
     rewrite Hok, Hrq. reflexivity.
-Qed.
-
-(* without the route field the unwrapper stops at rule 5 (route path size / reserved byte missing) *)
-Lemma parse_ucsend_noroute pr tk emb :
-  blen emb < 65536 ->
-  parse_ucsend (pr :: tk :: le_enc 2 (blen emb) ++ emb ++ (if Z.odd (blen emb) then [0] else [])) = RcErr 5.
-Proof.
-  intros Hl. pose proof (blen_nonneg emb) as Hn.
-  destruct (u16_le_enc (blen emb) (emb ++ (if Z.odd (blen emb) then [0] else [])) ltac:(lia)) as (l0 & l1 & Heq & Hu).
-  rewrite Heq. unfold parse_ucsend. rewrite Hu. rewrite takez_app.
-  destruct (Z.odd (blen emb)); reflexivity.
 Qed.
